@@ -9,7 +9,7 @@
 From Coq Require Import List Arith Bool NArith Permutation.
 From MWF Require Import Base.Util Base.Str Status.Csv Status.CsvProofs Status.Rows Status.RowsProofs
   Status.Lock Status.LockProofs Status.AtomicTable Status.LockCase Status.ExecRows Status.Consist
-  Gen.StatusData Status.TData.
+  Gen.StatusData Status.TData Status.StatusOps Status.StatusGen Status.StatusGenProofs.
 From MWF Require Exec.ExecBase Exec.ExecRun Status.ExecJobs.
 Import ListNotations.
 
@@ -105,6 +105,34 @@ Print Assumptions C12_H12_iff_no_signature.
 Theorem C12_tdata : tdata_ok = true.
 Proof. exact tdata_matches_models. Qed.
 Print Assumptions C12_tdata.
+
+(** T-code: the text REGENERATED on every run from the source of
+    ExecutionGraph.status_subtree / write_status, utils.csvtable_to_dict and
+    Conductor.get_status (Status/StatusGen.v, translate/tcode_status.py) IS the
+    model the theorems of this file are about: the traversal, the text handed
+    to the file (header, column order, "--" / LAST job id, workspace shortening,
+    restart count, parameter rendering, separators), the reader, and the file /
+    lock operations in program order with their Timeout handlers. *)
+Theorem C12_writer_is_generated : forall g src recs,
+  status_subtree_gen g src = status_order g src /\
+  write_status_text_gen (status_subtree_gen g src) (fun k => lift (rec_of recs k)) = status_text g src recs.
+Proof. exact (fun g src recs => conj (status_subtree_is_generated g src) (write_status_is_status_text g src recs)). Qed.
+Print Assumptions C12_writer_is_generated.
+
+Theorem C12_reader_is_generated : forall file timed_out,
+  csvtable_to_dict_gen (read_text file) = parse file /\
+  get_status_gen (option_map read_text (Some file)) timed_out = reader_answer (Some file) timed_out.
+Proof. exact (fun file t => conj (reader_is_parse file) (get_status_is_generated (Some file) t)). Qed.
+Print Assumptions C12_reader_is_generated.
+
+Theorem C12_lock_discipline_is_generated :
+  writer_events_gen = writer_program /\ writer_on_timeout_gen = HPass /\
+  reader_events_gen = reader_program /\ reader_on_timeout_gen = HPass.
+Proof.
+  exact (conj writer_events_is_generated (conj writer_timeout_is_generated
+        (conj reader_events_is_generated reader_timeout_is_generated))).
+Qed.
+Print Assumptions C12_lock_discipline_is_generated.
 
 (* ------------------------------------------------------------------------- *)
 (** * consistent: what a row shows                                             *)
